@@ -23,7 +23,10 @@ class C12Combine(Scenario):
         else:
             cfg = structs.BloomSubject.gen_cfg(rng, small=True)
         cfg.update({"kind": kind, "a_disk": kind == "bloom" and rng.chance(1, 3), "b_disk": kind == "bloom" and rng.chance(1, 3),
-                    "steps": rng.between(3, self.max_steps), "universe": rng.choice((4, 8, 16))})
+                    "steps": rng.between(3, self.max_steps), "universe": rng.choice((4, 8, 16)),
+                    # sketch cells are signed: removals beyond what was added are part of the reachable states
+                    # (net totals of 0 or below with non-zero counters); only used for the counter/total clauses
+                    "free_removes": kind == "cms" and rng.chance(1, 2)})
         return cfg
 
     def gen_step(self, rng):
@@ -33,6 +36,9 @@ class C12Combine(Scenario):
         self.n_gen += 1
         r = rng.below(100)
         side = rng.choice(("a", "b"))
+        if cfg.get("free_removes") and r < 30:
+            return {"op": "remove", "to": side, "k": rng.below(cfg["universe"]), "n": rng.weighted([(5, 1), (2, 2), (1, 11)]),
+                    "free": True}
         if r < 70:
             return {"op": "add", "to": side, "k": rng.below(cfg["universe"]), "n": rng.weighted([(5, 1), (2, 2), (1, 11)])}
         if r < 85 and cfg["kind"] != "bloom":
@@ -67,6 +73,7 @@ class C12Combine(Scenario):
         self.b = self.make(cfg["b_disk"])
         self.c = self.make(False)
         self.out = {"a": {}, "b": {}}
+        self.overdrawn = False
         if cfg["a_disk"] or cfg["b_disk"]:
             self.ctx.fault("ondisk_operand")
 
@@ -111,11 +118,14 @@ class C12Combine(Scenario):
                     self.c.add(key, step["n"])
                     out[step["k"]] = out.get(step["k"], 0) + step["n"]
             else:
-                if kind == "bloom" or out.get(step["k"], 0) < step["n"]:
+                if step.get("free") and kind == "cms" and cfg.get("free_removes"):
+                    self.overdrawn = True
+                    self.ctx.probe("over_removal")
+                elif kind == "bloom" or out.get(step["k"], 0) < step["n"]:
                     return "skip"
                 tgt.remove(key, step["n"])
                 self.c.remove(key, step["n"])
-                out[step["k"]] -= step["n"]
+                out[step["k"]] = out.get(step["k"], 0) - step["n"]
             return {"r": "ok"}
         if op == "combine":
             return self.combine(step["order"])
@@ -140,7 +150,7 @@ class C12Combine(Scenario):
             if total != want_total or res.elements_added != self.c.elements_added:
                 raise Violation("join_total_differs", f"elements_added after join {res.elements_added}, single-stream "
                                                       f"{self.c.elements_added}", sig)
-            if self.cfg["cls"] == "CountMinSketch":
+            if self.cfg["cls"] == "CountMinSketch" and not self.overdrawn:
                 for k in range(self.cfg["universe"]):
                     true = self.out["a"].get(k, 0) + self.out["b"].get(k, 0)
                     est = res.check(seams.key_of(k))
@@ -161,6 +171,8 @@ class C12Combine(Scenario):
         ctx.fault("combine")
         if any(v for v in self.out["a"].values()) and any(v for v in self.out["b"].values()):
             ctx.nontrivial = True
+        if kind == "cms" and y.elements_added == 0 and any(bytes(y)[:-16]):
+            ctx.probe("operand_total_zero_cells_nonzero")
         ctx.state(kind, order, len(self.out["a"]), len(self.out["b"]))
         return {"r": "ok"}
 
